@@ -21,6 +21,7 @@ import (
 const modPath = "github.com/buchgr/bazel-remote/v2"
 
 type Prog struct {
+	predAlias map[string]string
 	Repo   string
 	Fset   *token.FileSet
 	Pkgs   []*packages.Package // root packages (module packages)
